@@ -44,6 +44,25 @@ def _install_guards(stats: dict) -> None:
     except Exception:  # pragma: no cover
         stats["lru_patch_removed"] = False
 
+    # --- CrossHair's Decimal shim disagrees with the real module (inf, "1.") ----
+    # Observed: `Decimal("inf") + Decimal("0")` and `Decimal("1.")` raise in the shim
+    # but not in C `_decimal`, giving counterexamples that do not replay.  Use the real
+    # type; its constructor arguments are realized (solver-enumerated) first.
+    import decimal as _decimal
+
+    from crosshair import realize as _realize
+
+    _real_decimal = _decimal.Decimal
+    core._PATCH_REGISTRATIONS.pop(_real_decimal, None)
+
+    def _decimal_ctor(*a, **kw):  # type: ignore[no-untyped-def]
+        return _real_decimal(*[_realize(x) for x in a], **{k: _realize(v) for k, v in kw.items()})
+
+    core._PATCH_REGISTRATIONS[_real_decimal] = _decimal_ctor
+    for _k in [k for k in list(core._PATCH_REGISTRATIONS) if getattr(k, "__objclass__", None) is _decimal.Context]:
+        core._PATCH_REGISTRATIONS.pop(_k, None)
+    stats["decimal_shim_replaced"] = True
+
     # --- guard 3: regex sentinel -------------------------------------------
     # CrossHair's symbolic regex model disagrees with CPython on this lexer
     # (Match.lastgroup for nested named groups).  A symbolic string must never
@@ -53,12 +72,34 @@ def _install_guards(stats: dict) -> None:
 
     orig_match = relib._match_pattern
 
+    import re as _re
+
+    liquid_patterns: dict[int, str] = {}
+
+    def _collect() -> None:
+        for mname, m in list(sys.modules.items()):
+            if not (mname == "liquid2" or mname.startswith("liquid2.")) or m is None:
+                continue
+            for k, v in list(vars(m).items()):
+                if isinstance(v, _re.Pattern):
+                    liquid_patterns[id(v)] = f"{mname}.{k}"
+                elif isinstance(v, type) and getattr(v, "__module__", "").startswith("liquid2"):
+                    for ck, cv in list(vars(v).items()):
+                        if isinstance(cv, _re.Pattern):
+                            liquid_patterns[id(cv)] = f"{mname}.{k}.{ck}"
+        liquid_patterns[0] = "collected"
+
     def sentinel(compiled_regex, orig_str, *a, **k):  # type: ignore[no-untyped-def]
         if isinstance(orig_str, AnySymbolicStr):
-            if compiled_regex.groupindex:
+            if not liquid_patterns:
+                _collect()
+            if id(compiled_regex) in liquid_patterns and compiled_regex.groupindex:
+                # nested named groups + lastgroup: the case observed to be modelled wrongly
                 stats["regex_sentinel_hits"] += 1
-            else:
+            elif id(compiled_regex) in liquid_patterns:
                 stats["regex_model_uses"] += 1
+            else:
+                stats["regex_model_uses_outside_liquid2"] += 1
         return orig_match(compiled_regex, orig_str, *a, **k)
 
     relib._match_pattern = sentinel
